@@ -472,6 +472,27 @@ def pat_u64_compare(n, refs, lang, plat):
     return any(c.unsigned and c.size >= 8 and c.value >= (1 << 63) for c in cv)
 
 
+def pat_type_follows_c09_finding(n, refs, lang, plat):
+    """`~x` where cppcheck's *type* of x is wrong by a listed C09 finding, so the complement is taken in the wrong
+    type: (a) x = a op b with operands of the same size and different signedness (C09 same-size-rank: cppcheck keeps
+    the signed type); (b) x of type unsigned short / char16_t where short is as wide as int (C09
+    ushort-promotion-16bit-int: promotes to unsigned int, cppcheck says int)"""
+    if n.k != 'pre' or n.op != '~':
+        return False
+    c = n.ch[0]
+    isz = plat.sizes['int']
+    if c.k == 'bin' and c.op in ('+', '-', '*', '/', '%', '&', '|', '^'):
+        cv = _child_vals(c, refs)
+        if cv and max(cv[0].size, isz) == max(cv[1].size, isz) and cv[0].unsigned != cv[1].unsigned:
+            return True
+    rc = refs.get(id(c))
+    if rc is not None and rc.unsigned and rc.size == isz and plat.sizes['short'] == isz:
+        t = _cast_type(c)
+        if t in ('unsigned short', 'char16_t') or (c.k == 'leaf' and 'chr' in c.flags and c.txt[:1] == 'u' and c.txt[:2] != 'u8'):
+            return True
+    return False
+
+
 def pat_lit(n, refs, lang, plat):
     return c09.pat_hex_literal(n, None, lang, plat) or c09.pat_octal_literal(n, None, lang, plat)
 
@@ -485,6 +506,7 @@ FINDING_PATTERNS = [
     ('truth-as-value', 'expr:sizeof(st1)+9:unix64', pat_truth_as_value),
     ('cast-char-negative', "expr:(char)-'\\r':unix64", pat_cast_char_negative),
     ('u64-complement', 'expr:~0xFFFFFFFFFFFFFFFF<=0:unix64', pat_u64_complement),
+    ('type-follows-c09-finding', 'C09 expr:l1+u1:unix32, expr:~us1:msp430', pat_type_follows_c09_finding),
     ('u64-compare', 'expr:62-((8L>=~145LLu)+8u):unix64', pat_u64_compare),
     ('narrow-operands', 'expr:(unsignedchar)214:unix64 expr:(unsignedshort)65000:unix64 expr:(signedchar)254:unix64 expr:~0177777:unix32 expr:(signedchar)255:unix32', pat_narrow_operands),
 ]
